@@ -7,11 +7,10 @@ import (
 	_ "verif/internal/props/c04"
 	_ "verif/internal/props/c05"
 	_ "verif/internal/props/c06"
+	_ "verif/internal/props/c09"
 	_ "verif/internal/props/c15"
 	_ "verif/internal/props/c16"
-	_ "verif/internal/props/c20"
-	_ "verif/internal/props/c09"
 	_ "verif/internal/props/c18"
 	_ "verif/internal/props/c19"
-	_ "verif/internal/props/c19"
+	_ "verif/internal/props/c20"
 )
